@@ -1258,62 +1258,95 @@ func init() {
 func runPOPGUARD(c *Ctx) {
 	P := c.P
 	n := 0
+	isPop := func(ins ssa.Instruction) bool {
+		st, ok := ins.(*ssa.Store)
+		if !ok || !isCursorPath(st.Addr) {
+			return false
+		}
+		sl, ok := st.Val.(*ssa.Slice)
+		if !ok || sl.High == nil {
+			return false
+		}
+		// path[:len(path)-1]: a pop (not the undo that cuts back to a saved depth)
+		hb, ok := ir.ResolveCell(sl.High).(*ssa.BinOp)
+		if !ok || hb.Op != token.SUB {
+			return false
+		}
+		k, isK := ir.ConstInt(hb.Y)
+		return isK && k == 1
+	}
+	// helpers that pop (`func (c *Cursor) pop() *pathEntry`): a call of one is the pop
+	popFns := map[*ssa.Function]bool{}
+	for _, fn := range P.Funcs {
+		if fn.Pkg == nil || fn.Pkg.Pkg.Path() != ir.MastPath || fn.Signature.Recv() == nil || !ir.IsPtrToNamed(fn.Signature.Recv().Type(), "Cursor") {
+			continue
+		}
+		if o := fn.Object(); o != nil && o.Exported() {
+			continue
+		}
+		for _, b := range fn.Blocks {
+			for _, ins := range b.Instrs {
+				if isPop(ins) && len(fn.Blocks) <= 4 {
+					popFns[fn] = true
+				}
+			}
+		}
+	}
+	exhausted := func(f ir.Fact) bool {
+		bin, ok := f.Cond.(*ssa.BinOp)
+		if !ok {
+			return false
+		}
+		for _, side := range [][2]ssa.Value{{bin.X, bin.Y}, {bin.Y, bin.X}} {
+			if _, _, ok := liPlusK(side[0]); !ok {
+				continue
+			}
+			flip := map[token.Token]token.Token{token.LSS: token.GTR, token.GTR: token.LSS, token.LEQ: token.GEQ, token.GEQ: token.LEQ}
+			// against the node's key count …
+			if _, _, ok := lenOfNodeSlice(side[1]); ok {
+				op := bin.Op
+				if side[0] == bin.Y {
+					if fo, has := flip[op]; has {
+						op = fo
+					}
+				}
+				// position(+k) < len false, or position(+k) >= len true
+				return (op == token.LSS || op == token.LEQ) && !f.Truth || (op == token.GEQ || op == token.GTR) && f.Truth
+			}
+			// … or against 0 (stepping back)
+			if k, isK := ir.ConstInt(side[1]); isK && (k == 0 || k == 1) {
+				op := bin.Op
+				if side[0] == bin.Y {
+					if fo, has := flip[op]; has {
+						op = fo
+					}
+				}
+				return (op == token.GTR || op == token.GEQ) && !f.Truth || (op == token.LEQ || op == token.LSS || op == token.EQL) && f.Truth
+			}
+		}
+		return false
+	}
 	for _, entry := range c.Entries("(*Cursor).Forward", "(*Cursor).Backward") {
 		for _, fn := range regionOf(c, entry) {
+			if popFns[fn] {
+				continue
+			}
 			for _, b := range fn.Blocks {
 				if ir.IsDead(b) {
 					continue
 				}
 				for _, ins := range b.Instrs {
-					st, ok := ins.(*ssa.Store)
-					if !ok || !isCursorPath(st.Addr) {
-						continue
+					pop := isPop(ins)
+					if call, ok := ins.(*ssa.Call); ok && popFns[ir.Callee(call.Call)] {
+						pop = true
 					}
-					sl, ok := st.Val.(*ssa.Slice)
-					if !ok || sl.High == nil {
-						continue
-					}
-					// path[:len(path)-1]: a pop (not the undo that cuts back to a saved depth)
-					hb, ok := ir.ResolveCell(sl.High).(*ssa.BinOp)
-					if !ok || hb.Op != token.SUB {
-						continue
-					}
-					if k, isK := ir.ConstInt(hb.Y); !isK || k != 1 {
+					if !pop {
 						continue
 					}
 					n++
-					exhausted := func(f ir.Fact) bool {
-						bin, ok := f.Cond.(*ssa.BinOp)
-						if !ok {
-							return false
-						}
-						for _, side := range [][2]ssa.Value{{bin.X, bin.Y}, {bin.Y, bin.X}} {
-							if _, _, ok := liPlusK(side[0]); !ok {
-								continue
-							}
-							// against the node's key count …
-							if _, _, ok := lenOfNodeSlice(side[1]); ok {
-								op := bin.Op
-								if side[0] == bin.Y {
-									op = map[token.Token]token.Token{token.LSS: token.GTR, token.GTR: token.LSS, token.LEQ: token.GEQ, token.GEQ: token.LEQ}[op]
-								}
-								// position(+k) < len false, or position(+k) >= len true
-								return (op == token.LSS || op == token.LEQ) && !f.Truth || (op == token.GEQ || op == token.GTR) && f.Truth
-							}
-							// … or against 0 (stepping back)
-							if k, isK := ir.ConstInt(side[1]); isK && (k == 0 || k == 1) {
-								op := bin.Op
-								if side[0] == bin.Y {
-									op = map[token.Token]token.Token{token.LSS: token.GTR, token.GTR: token.LSS, token.LEQ: token.GEQ, token.GEQ: token.LEQ}[op]
-								}
-								return (op == token.GTR || op == token.GEQ) && !f.Truth || (op == token.LEQ || op == token.LSS || op == token.EQL) && f.Truth
-							}
-						}
-						return false
-					}
-					pos := P.InstrPos(st)
+					pos := P.InstrPos(ins)
 					what := "pop of the last path entry in " + ir.FuncName(fn)
-					if ir.FlowFact(st, exhausted, func(ssa.Instruction) bool { return false }) {
+					if ir.FlowFact(ins, exhausted, func(ssa.Instruction) bool { return false }) {
 						c.OK(pos, what, "every path to it has just found the entry's node without a key left in the direction of travel", false)
 					} else {
 						c.Violation(fn, pos, "path entry dropped although its node may still have keys to visit",
